@@ -4,18 +4,22 @@ from __future__ import annotations
 import itertools
 import types
 
-from vlib import chrun, loader
+import z3
+
+from vlib import chrun, hutil, loader, symx
+from vlib.symx import SInt
 
 ID = 'C10'
 
 MANIFEST = {
     'engine': 'crosshair',
-    'text': 'CrossHair (symbolic execution with z3, symbolic strings) of the real compute_combined_features / combine_features source on a list-backed pandas stand-in with an injective stand-in for the 64-bit hash: the constituent cell values of two rows are symbolic strings; for every value assignment within the bound CrossHair must confirm over all paths that the interaction column is named by joining the constituent names with " AND ", that its two cells are equal if and only if the two rows agree on every constituent, that the original columns are untouched and that min(cap, C(m,k)) columns are produced. Counterexamples are replayed on the real build (real pandas, real xxhash).',
+    'text': 'Two parts. (1) CrossHair (symbolic execution with z3, symbolic strings) of the real compute_combined_features / combine_features source on a list-backed pandas stand-in with an injective stand-in for the 64-bit hash: the constituent cell values of two rows are symbolic strings; for every value assignment within the bound CrossHair must confirm over all paths that the interaction column is named by joining the constituent names with " AND ", that its two cells are equal if and only if the two rows agree on every constituent, that the original columns are untouched and that min(cap, C(m,k)) columns are produced. Counterexamples are replayed on the real build (real pandas, real xxhash). (2) The real function on REAL pandas frames with the real hash: two rows x three features, every cell chosen by the solver from an adversarial pool (empty string, values that are prefixes/suffixes of one another), label at every position, orders 2 and 3: equality pattern of every interaction column vs equality of the value tuples (covers library calls the list-backed stand-in does not model).',
     'note': 'Per condition <= 4 symbolic characters in total over alphabets of <= 4 letters (incl. empty strings, a digit, a space, a unicode letter); orders 2 and 3 (order 4 outside); 64-bit hash collisions are outside (injective stub, as the statement allows); "score equals the score of the explicit tuple" follows from value equality + C02 and is not separately encoded.',
     'technique': 'CrossHair symbolic execution of the real Python source (z3 string/sequence theory), per condition "Confirmed over all paths" or a replayed counterexample',
 }
 
 CONDS = ['pair_small', 'pair_two_cells', 'triple_small', 'capped']
+RPOOL = ['', '1', '11', 'a']      # adversarial cell values for the real-pandas condition: prefixes/suffixes of one another, empty, digits
 INFO = {
     'engine': 'crosshair-tool 0.0.110 + z3',
     'explanation': 'see level text',
@@ -29,10 +33,85 @@ TIMEOUT = {'quick': 90, 'thorough': 600}
 
 
 def jobs(tier):
-    return [{'cond': c, 'weight': 10, 'label': c} for c in CONDS]
+    import pandas  # noqa
+    out = [{'cond': c, 'weight': 10, 'label': c} for c in CONDS]
+    for lpos in range(4):
+        for order in (2, 3):
+            for c0 in range(len(RPOOL)):
+                out.append({'cond': 'real-frames', 'pins': {'lpos': lpos, 'order': order, 'c0': c0}, 'weight': 5, 'label': f'label@{lpos},order={order},c0={c0}'})
+    return out
+
+
+def real_check(cols, rows, order, cap=100):
+    """real compute_combined_features on real pandas; returns the list of problems"""
+    loader.use_repo_on_syspath()
+    import pandas as pd
+    import outrank.core_ranking as cr
+    cr.GLOBAL_PRIOR_COMB_COUNTS.clear()
+    df = pd.DataFrame(rows, columns=cols)
+    args = types.SimpleNamespace(label_column='label', interaction_order=order, reference_model_JSON='', heuristic='MI-numba-randomized', combination_number_upper_bound=cap)
+    PB = types.SimpleNamespace(set_description=lambda *a, **k: None)
+    try:
+        out = cr.compute_combined_features(df.copy(), args, PB)
+    finally:
+        cr.GLOBAL_PRIOR_COMB_COUNTS.clear()
+    probs = []
+    feats = [c for c in cols if c != 'label']
+    if list(out.columns[:len(cols)]) != cols or any(out[c].tolist() != df[c].tolist() for c in cols):
+        probs.append('original columns changed')
+    combos = list(itertools.combinations(feats, order))
+    new = list(out.columns[len(cols):])
+    if len(new) != min(cap, len(combos)):
+        probs.append(f'{len(new)} interaction columns, min(cap, #combinations) = {min(cap, len(combos))}')
+    for nm in new:
+        parts = tuple(nm.split(' AND '))
+        if parts not in combos:
+            probs.append(f'column {nm!r} is not named after a combination of the constituents')
+            continue
+        col = out[nm].tolist()
+        t0, t1 = tuple(rows[0][cols.index(p)] for p in parts), tuple(rows[1][cols.index(p)] for p in parts)
+        if (col[0] == col[1]) != (t0 == t1):
+            probs.append(f'{nm!r}: value tuples {t0} and {t1} ' + ('differ but get the same interaction value' if t0 != t1 else 'are equal but get different interaction values'))
+    return probs
+
+
+def run_real(job):
+    loader.record_functions('outrank/core_ranking.py', ['compute_combined_features', 'prior_combinations_sample'])
+    st = {}
+
+    def setup(ctx):
+        st['c'] = [z3.Int(f'c{i}') for i in range(6)]
+        for v in st['c']:
+            ctx.assume(v >= 0, v < len(RPOOL))
+        st['lpos'], st['order'] = z3.Int('lpos'), z3.Int('order')
+        ctx.assume(st['lpos'] >= 0, st['lpos'] <= 3, st['order'] >= 2, st['order'] <= 3)
+        for k, v in job['pins'].items():
+            ctx.assume(z3.Int(k) == v)
+
+    def body(ctx, out):
+        cells = [RPOOL[int(SInt(v, 0, len(RPOOL) - 1))] for v in st['c']]
+        lpos, order = int(SInt(st['lpos'], 0, 3)), int(SInt(st['order'], 2, 3))
+        cols = ['fa', 'fb', 'fc']
+        cols.insert(lpos, 'label')
+        rows = [cells[:3], cells[3:]]
+        for r, lab in zip(rows, ('0', '1')):
+            r.insert(lpos, lab)
+        w = {'cond': 'real-frames', 'fn': 'real-frames', 'cols': cols, 'rows': rows, 'order': order}
+        try:
+            probs = real_check(cols, rows, order)
+        except Exception as e:
+            probs = [f'{type(e).__name__}: {e}']
+        if probs or out.twin:
+            out.concrete_fail(w, probs[0] if probs else 'twin')
+        else:
+            out.concrete_ok()
+        out.sample({'cols': cols, 'rows': rows, 'order': order})
+    return hutil.run_symx(job, setup, body)
 
 
 def run_job(job):
+    if job['cond'] == 'real-frames':
+        return run_real(job)
     fname = job['cond'] + ('_twin' if job.get('twin') else '')
     r = chrun.run_condition('harness.ch_c10', fname, TIMEOUT[job['tier']], loader.REPO)
     loader.record_functions('outrank/core_ranking.py', ['compute_combined_features', 'prior_combinations_sample'])
@@ -54,6 +133,17 @@ def replay(w):
     loader.use_repo_on_syspath()
     import pandas as pd
     import outrank.core_ranking as cr
+    if w['fn'] == 'real-frames':
+        try:
+            probs = real_check(w['cols'], w['rows'], w['order'])
+        except Exception as e:
+            import traceback
+            tb = traceback.extract_tb(e.__traceback__)[-1]
+            return {'reproduced': True, 'signature': f'C10:exception:{type(e).__name__}:{tb.name}', 'what': f'compute_combined_features on columns {w["cols"]}, rows {w["rows"]}: {type(e).__name__}: {e}'}
+        if probs:
+            sig = 'C10:tuple-aliasing-by-concatenation' if any('get the same interaction value' in p for p in probs) else 'C10:' + probs[0].split()[0]
+            return {'reproduced': True, 'signature': sig, 'what': f'columns {w["cols"]}, rows {w["rows"]}, order {w["order"]}: ' + '; '.join(probs)[:400]}
+        return {'reproduced': False, 'what': 'faithful'}
     cols, rows, order, cap = frame_for(w['fn'], w['call'])
     cr.GLOBAL_PRIOR_COMB_COUNTS.clear()
     df = pd.DataFrame({c: [rows[0][i], rows[1][i]] for i, c in enumerate(cols)} | {'label': ['0', '1']})
